@@ -46,6 +46,11 @@ def secret_pool(seed):
         ("j9Q", refs.j9_encode(Q, "7"), Q), ("clearP", P, P),
         ("textLong", "LongSecretValue_" + "xY9-" * 9, "LongSecretValue_" + "xY9-" * 9),
         ("j9Long", refs.j9_encode("A-long-juniper-plaintext", "B"), "A-long-juniper-plaintext"),
+        # $9$ strings whose plaintext is not text-class, and the same plaintext in clear
+        ("j9Num", refs.j9_encode("4072", "z"), "4072"), ("clearNum", "4072", "4072"),
+        ("j9Hex", refs.j9_encode("BEEF77", "i"), "BEEF77"), ("clearHex", "BEEF77", "BEEF77"),
+        # $9$-looking strings that do not decrypt: plain text secrets by identity
+        ("j9Bad1", "$9$ab", "$9$ab"), ("j9Bad2", "$9$abc!defghij", "$9$abc!defghij"),
     ]
 
 
@@ -76,11 +81,11 @@ def alphabet(seed, tier):
 
     for lab in ("textA", "textB", "hexA", "t7A", "md5A", "j9P.Q", "clearP", "textLong"):
         add(0, [lab], 0)
-    for lab in ("textA", "hexB", "md5B", "j9P.k", "j9Q", "j9Long"):
+    for lab in ("textA", "hexB", "md5B", "j9P.k", "j9Q", "j9Long", "j9Num", "j9Hex", "j9Bad1", "j9Bad2"):
         add(1, [lab], 1)
     for lab in ("textA", "j9P.Q", "clearP", "md5A"):
         add(1, [lab], 2)
-    for lab in ("textB", "hexA", "clearP"):
+    for lab in ("textB", "hexA", "clearP", "clearNum", "clearHex", "j9Num"):
         add(2, [lab], 0)
     add(3, ["textA", "textB"], 0)
     add(3, ["textB", "textB"], 0)
@@ -195,7 +200,8 @@ class HistoryPart(Part):
     def cases(self):
         lines = alphabet(self.seed, self.tier)
         b = bounds(self.tier, self.seed)
-        return [{"salt": s, "first": i} for s in b["salts"] for i in range(len(lines))]
+        salts = b["salts"] if self.tier == "thorough" else b["salts"][:1]
+        return [{"salt": s, "first": i} for s in salts for i in range(len(lines))]
 
     def run(self, case):
         res = Res()
